@@ -69,19 +69,21 @@ type Inst struct {
 	ents   []*ent
 	refs   []refBy
 
-	phase        int
-	pc           int
-	reg          []*ent
-	dpc          int // index into reg of the defer currently running (counts down)
-	failed       bool
-	cause        string // own | dep | callee | guard:<kind> | abort
-	causeBy      *Inst
-	failCode     int
-	sawEntry     bool // evidence that the command loop of this instance has started
-	hadIgnored   bool // an ignored failing command occurred
-	lateReported bool
-	claimedDead  string // a caller went on (ran its defers / let its own caller go on) as if this shared instance had finished
-	codeUnsure   bool   // the failing command began after a cancellation may already have been in flight
+	phase         int
+	pc            int
+	reg           []*ent
+	dpc           int // index into reg of the defer currently running (counts down)
+	failed        bool
+	cause         string // own | dep | callee | guard:<kind> | abort
+	causeBy       *Inst
+	failCode      int
+	sawEntry      bool // evidence that the command loop of this instance has started
+	hadIgnored    bool // an ignored failing command occurred
+	lateReported  bool
+	claimedDead   string // a caller went on (ran its defers / let its own caller go on) as if this shared instance had finished
+	codeUnsure    bool   // the failing command began after a cancellation may already have been in flight
+	ignoredUnsure bool   // a failing command whose failure is ignored began while a cancellation may have been in flight: it may
+	// have ended by cancellation (which is not ignorable), so whatever the task does after it is not certain
 }
 
 func (i *Inst) name() string { return i.T.Name + "@" + i.P }
@@ -337,7 +339,7 @@ func (m *Model) advance(i *Inst, vis map[*Inst]bool) bool {
 			e := i.ents[i.pc]
 			switch e.e.Kind {
 			case DeferCmd, DeferCall:
-				e.maybe = !i.sawEntry
+				e.maybe = !i.sawEntry || i.ignoredUnsure
 				i.reg = append(i.reg, e)
 				i.pc++
 				changed = true
@@ -379,6 +381,11 @@ func (m *Model) advance(i *Inst, vis map[*Inst]bool) bool {
 					if i.T.IgnoreError && exitRooted(c) {
 						// task-level ignore_error covers a task-call command too when the callee's failure
 						// is a command's exit status (interp.IsExitStatus sees through the wrapping)
+						for o, n := c, 0; o != nil && n < 100; o, n = o.causeBy, n+1 {
+							if o.codeUnsure {
+								i.ignoredUnsure = true // the root failure may have been a cancellation after all
+							}
+						}
 						i.hadIgnored = true
 						i.pc++
 						changed = true
@@ -1000,6 +1007,9 @@ func (m *Model) Step(ev Event) {
 			}
 			m.FailureSeen = true
 			m.FatalFired++
+		}
+		if s.e.e.Exit != 0 && (s.e.e.IgnoreErr || s.i.T.IgnoreError) && m.FailureSeen {
+			s.i.ignoredUnsure = true
 		}
 	case 'E':
 		s.e.eok = true
